@@ -43,12 +43,24 @@ Section Assoc.
     end.
 
   Definition cnt (l : list A) (k : A) : Z := Z.of_nat (count_occ eq_dec l k).
-  Definition memb (k : A) (l : list A) : bool := if in_dec eq_dec k l then true else false.
+  (* short-circuit membership and duplicate removal (stdlib's in_dec/nodup traverse the whole list under
+     vm_compute); [dedup] is proved equal to [nodup] in QualityProofs.v *)
+  Fixpoint memb (k : A) (l : list A) : bool :=
+    match l with
+    | [] => false
+    | x :: r => if eq_dec k x then true else memb k r
+    end.
+  Fixpoint dedup (l : list A) : list A :=
+    match l with
+    | [] => []
+    | x :: r => if memb x r then dedup r else x :: dedup r
+    end.
 End Assoc.
 Arguments get {A} eq_dec s k.
 Arguments incr {A} eq_dec s k.
 Arguments cnt {A} eq_dec l k.
 Arguments memb {A} eq_dec k l.
+Arguments dedup {A} eq_dec l.
 
 (* ---- (i) cardinality sketch while warm ------------------------------------------------ *)
 (* HyperLogLogWCache.add before the conversion: a set of at most [cap] hash values; an add of
@@ -74,7 +86,7 @@ Section Card.
 
   (* what one batch inserts for one column: the hashes of the SET of its truthy values *)
   Definition batch_ins (col : list str) : list N :=
-    map hash (filter nonempty (nodup str_eq_dec col)).
+    map hash (filter nonempty (dedup str_eq_dec col)).
 
   (* any insertion lists, one per batch *)
   Definition sk_run (inss : list (list N)) : sketch :=
@@ -85,12 +97,12 @@ Section Card.
 
   (* the specification: a function of the whole column *)
   Definition card_spec (col : list str) : option nat :=
-    let d := length (nodup N.eq_dec (map hash (filter nonempty col))) in
+    let d := length (dedup N.eq_dec (map hash (filter nonempty col))) in
     if Z.of_nat d <=? cap then Some d else None.
 
   (* hash-free exact count *)
   Definition distinct_nonempty (col : list str) : nat :=
-    length (nodup str_eq_dec (filter nonempty col)).
+    length (dedup str_eq_dec (filter nonempty col)).
 End Card.
 
 (* ---- (ii) the bounded exact counter ---------------------------------------------------- *)
@@ -113,7 +125,8 @@ Definition hist (edges : list Z) (bound : Z) (j : nat) (bs : list batch) : list 
   hist_of edges (counter bound j bs).
 
 Definition hist_spec (edges : list Z) (col : list str) : list Z :=
-  map (fun x => Z.of_nat (length (filter (fun v => x <? cnt str_eq_dec col v) (nodup str_eq_dec col)))) edges.
+  let vals := map (fun v => cnt str_eq_dec col v) (dedup str_eq_dec col) in
+  map (fun x => Z.of_nat (length (filter (fun c => x <? c) vals))) edges.
 
 Definition default_edges : list Z := [0; 1; 10; 100; 1000; 10000; 100000].
 
@@ -165,7 +178,7 @@ Definition rare_checkb (thr : Z) (ncols : nat) (rows : list row) (rep : al key) 
   && forallb (fun kc : key * Z => (snd kc =? total ncols rows (fst kc)) && (0 <? snd kc) && (snd kc <=? thr)) rep
   && forallb (fun k => let t := total ncols rows k in
                        negb ((0 <? t) && (t <=? thr)) || (get key_eq_dec rep k =? t))
-             (keys_of ncols rows).
+             (dedup key_eq_dec (keys_of ncols rows)).
 
 (* ---- (iv) coverage ----------------------------------------------------------------------- *)
 (* args.missing_value_symbols.split(',') *)
@@ -182,7 +195,7 @@ Definition sum_Z (l : list Z) : Z := fold_right Z.add 0 l.
 
 (* sum over the SET of symbols of list.count(symbol) *)
 Definition miss_count (syms : list str) (col : list str) : Z :=
-  sum_Z (map (cnt str_eq_dec col) (nodup str_eq_dec syms)).
+  sum_Z (map (cnt str_eq_dec col) (dedup str_eq_dec syms)).
 
 Definition cov_batch (syms : list str) (col : list str) : Q :=
   ((1 - inject_Z (miss_count syms col) / inject_Z (Z.of_nat (length col))) * 100)%Q.
@@ -256,7 +269,7 @@ Definition C13_spec (c : C13_case) : list (option nat * nat * option (list Z)) :
          let col := column j (c_rows c) in
          (card_spec (lookup_hash (c_hash c)) (c_cap c) col,
           distinct_nonempty col,
-          if Z.of_nat (length (nodup str_eq_dec col)) <? c_bound c then Some (hist_spec (c_edges c) col) else None))
+          if Z.of_nat (length (dedup str_eq_dec col)) <? c_bound c then Some (hist_spec (c_edges c) col) else None))
       (seq 0%nat (c_ncols c)).
 
 (* verdicts on what an implementation run reported (card per column, histogram per column, rare table) *)
@@ -271,6 +284,6 @@ Definition C13_check (c : C13_case) (o : list nat * list (list Z) * al key) : li
        (combine (seq 0%nat (c_ncols c)) cards),
    map (fun jh : nat * list Z =>
           let col := column (fst jh) (c_rows c) in
-          negb (Z.of_nat (length (nodup str_eq_dec col)) <? c_bound c) || zlist_eqb (hist_spec (c_edges c) col) (snd jh))
+          negb (Z.of_nat (length (dedup str_eq_dec col)) <? c_bound c) || zlist_eqb (hist_spec (c_edges c) col) (snd jh))
        (combine (seq 0%nat (c_ncols c)) hists),
    rare_checkb (c_thr c) (c_ncols c) (c_rows c) rep).
